@@ -271,6 +271,29 @@ def matrix_crosscheck():
                 else:
                     continue
                 break
+    # denominators beyond the exact reference (the format allows 0..255): closed-form rotation by n pi / 2^d in floating point
+    def rot_float(axis, num, den):
+        from fractions import Fraction
+        th = float(Fraction(num, 2 ** den)) * np.pi
+        c, s_ = np.cos(th / 2), np.sin(th / 2)
+        return {"x": [[c, -1j * s_], [-1j * s_, c]], "y": [[c, -s_], [s_, c]], "z": [[np.exp(-1j * th / 2), 0], [0, np.exp(1j * th / 2)]]}[axis]
+    for mod, flav in ((vanilla, "vanilla"), (nv, "nv")):
+        for axis in "xyz":
+            cls = getattr(mod, f"Rot{axis.upper()}Instruction")
+            for den in (5, 6, 31, 32, 62, 63, 64, 65, 128, 255):
+                for num in (1, 3, 255):
+                    n += 1
+                    try:
+                        M = cls(reg=Q0, imm0=Immediate(num), imm1=Immediate(den)).to_matrix()
+                        ok = bool(np.all(np.isfinite(np.asarray(M, dtype=complex)))) and same(M, rot_float(axis, num, den))
+                    except Exception:  # noqa
+                        ok = False
+                    if not ok:
+                        mism.append({"flavour": flav, "instr": "rot_" + axis, "n": num, "d": den})
+                        break
+                else:
+                    continue
+                break
     for axis in "xy":
         cls = getattr(nv, f"ControlledRot{axis.upper()}Instruction")
         for num in (0, 1, 8, 16, 24, 31):
